@@ -148,6 +148,20 @@ fn run<const N: usize>(job: &Value) {
             "len" => json!(tgt.len()),
             "is_empty" => json!(tgt.is_empty()),
             "keys" => json!(tgt.keys()),
+            "save_load" | "save_cut_load" => {
+                let path = std::env::temp_dir().join(format!("verif-replay-{}.sodg", std::process::id()));
+                let size = tgt.save(&path).unwrap();
+                if op == "save_cut_load" {
+                    let bytes = std::fs::read(&path).unwrap();
+                    std::fs::write(&path, &bytes[..u("cut").min(bytes.len())]).unwrap();
+                }
+                let r = match Sodg::<N>::load(&path) {
+                    Ok(l) => json!({"ok": true, "size": size, "loaded": snap_to(&l.verif_snapshot())}),
+                    Err(e) => json!({"ok": false, "size": size, "error": format!("{e:#}")}),
+                };
+                let _ = std::fs::remove_file(&path);
+                r
+            }
             "clone" => {
                 other = Some(tgt.clone());
                 json!({"clone": snap_to(&other.as_ref().unwrap().verif_snapshot())})
